@@ -214,27 +214,37 @@ def argminAbs (axis : List Rat) (b : Rat) : Nat :=
     (rest.foldl (fun (acc : Nat × Rat × Nat) v =>
       if v < acc.2.1 then (acc.2.2 + 1, v, acc.2.2 + 1) else (acc.1, acc.2.1, acc.2.2 + 1)) (0, d, 0)).1
 
+/-- nearest axis index of an extended bound (`nearest_index` inside `get_axis_slice_from_interval`):
+    −∞ ↦ first point, +∞ ↦ last point, finite ↦ first argmin of |axis − b| -/
+def nearestIdx (axis : List Rat) : EB → Nat
+  | .fin r => argminAbs axis r
+  | .ninf => 0
+  | .pinf => axis.length - 1
+
 /-- `DataProvider.get_axis_slice_from_interval` → (start, stop) -/
 def axisSlice (lo hi : EB) (axis : List Rat) : Nat × Nat :=
   let (lo, hi) := if lo.le hi then (lo, hi) else (hi, lo)
-  let start := match lo with | .fin r => argminAbs axis r | _ => 0
-  let stop := match hi with | .fin r => argminAbs axis r + 1 | _ => axis.length
-  (start, stop)
+  (nearestIdx axis lo, nearestIdx axis hi + 1)
 
 def ebMax (a : EB) (b : Rat) : EB := if a.le (.fin b) then .fin b else a
 def ebMin (a : EB) (b : Rat) : EB := if a.le (.fin b) then a else .fin b
 def listMin (l : List Rat) : Rat := l.foldl (fun a b => if b < a then b else a) (l.headD 0)
 def listMax (l : List Rat) : Rat := l.foldl (fun a b => if a < b then b else a) (l.headD 0)
 
+/-- the index range one interval contributes in `_get_area`: bounds ordered, skipped when the lower
+    bound lies above the last axis point, clamped to [min axis, max axis], then sliced -/
+def areaSlice (iv : Interval) (axis : List Rat) : Option (Nat × Nat) :=
+  let (lower, upper) := if iv.lo.le iv.hi then (iv.lo, iv.hi) else (iv.hi, iv.lo)
+  if !(lower.le (.fin (axis.getLastD 0))) then none      -- lower > axis[-1]
+  else some (axisSlice (ebMax lower (listMin axis)) (ebMin upper (listMax axis)) axis)
+
 /-- `_get_area` -/
 def getArea (label : String) (labels : List (List String)) (clps : List Vec)
     (ivs : List Interval) (axis : List Rat) : Vec :=
   ivs.flatMap (fun iv =>
-    if !(iv.lo.le (.fin (axis.getLastD 0))) then []      -- interval[0] > axis[-1]
-    else
-      let lo := ebMax iv.lo (listMin axis)
-      let hi := ebMin iv.hi (listMax axis)
-      let (s, e) := axisSlice lo hi axis
+    match areaSlice iv axis with
+    | none => []
+    | some (s, e) =>
       (List.range (e - s)).filterMap (fun k =>
         let i := s + k
         let ls := labels.getD i []
